@@ -324,20 +324,7 @@ macro_rules! est_hist {
                 None
             }
             fn snap(&self) -> Snapshot {
-                let mut v: Snapshot = Vec::new();
-                for (i, r) in Hist::ranges(&self.0).iter().enumerate() {
-                    v.push((format!("range[{}]", i), *r));
-                }
-                for (i, b) in Hist::bins(&self.0).iter().enumerate() {
-                    v.push((format!("bin[{}]", i), *b as f64));
-                }
-                for (i, b) in Hist::normalized_bins(&self.0).iter().enumerate() {
-                    v.push((format!("normalized[{}]", i), *b));
-                }
-                for (i, b) in Hist::variances(&self.0).iter().enumerate() {
-                    v.push((format!("variance[{}]", i), *b));
-                }
-                v
+                crate::hist::full_snapshot(&self.0)
             }
             fn to_json(&self) -> Result<String, String> {
                 Hist::to_json(&self.0).ok_or_else(|| "no serde".to_string())
@@ -399,14 +386,7 @@ macro_rules! est_hist_cw {
                 None
             }
             fn snap(&self) -> Snapshot {
-                let mut v: Snapshot = Vec::new();
-                for (i, r) in Hist::ranges(&self.0).iter().enumerate() {
-                    v.push((format!("range[{}]", i), *r));
-                }
-                for (i, b) in Hist::bins(&self.0).iter().enumerate() {
-                    v.push((format!("bin[{}]", i), *b as f64));
-                }
-                v
+                crate::hist::full_snapshot(&self.0)
             }
             fn to_json(&self) -> Result<String, String> {
                 Hist::to_json(&self.0).ok_or_else(|| "no serde".to_string())
